@@ -114,6 +114,7 @@ def _cases():
         ('linspace', lambda c: (npshim.linspace(0, 3, 4), np.linspace(0, 3, 4))),
         ('cumsum', lambda c: (npshim.cumsum(sym(c, a5)), np.cumsum(a5))),
         ('cumsum-2d', lambda c: (npshim.cumsum(sym(c, m23), axis=0), np.cumsum(m23, axis=0))),
+        ('cumsum-2d-no-axis', lambda c: (npshim.cumsum(sym(c, m23)), np.cumsum(m23))),
         ('gradient', lambda c: (npshim.gradient(sym(c, a5)), np.gradient(a5))),
         ('gradient-2d', lambda c: (npshim.gradient(sym(c, m23.T), axis=0), np.gradient(m23.T, axis=0))),
         ('sum', lambda c: (npshim.sum_(sym(c, a5)), a5.sum())),
